@@ -38,6 +38,8 @@ VARIABLES
     pres,     \* promise id -> <<>> (no result observed yet) | <<v, e>> (the result pair)
     pavail,   \* promises whose result is certainly available (SetResult returned true / created resolved)
     curposs,  \* promise ids the container may currently hold (0 = no promise)
+    late,     \* promises whose first SetResult started while they were certainly not current (and that were
+              \* not installed again since): their result became available only after they had been replaced
     ck,       \* call id -> "set" | "cset" | "setp" | "await"
     cst,      \* call id -> "pending" | "done"
     ca,       \* call id -> [q, v, e, kind, actor]  (q: promise; for await: 0 = the container)
@@ -49,15 +51,15 @@ VARIABLES
     fired,    \* await id -> "" | how its error/cancel channel fired
     bad       \* names of conditions that failed (sticky)
 
-pvars == <<pres, pavail, curposs, ck, cst, ca, cres, aux, canc, fired, bad>>
+pvars == <<pres, pavail, curposs, late, ck, cst, ca, cres, aux, canc, fired, bad>>
 
 PInit ==
-    /\ pres = <<>> /\ pavail = {} /\ curposs = {0}
+    /\ pres = <<>> /\ pavail = {} /\ curposs = {0} /\ late = {}
     /\ ck = <<>> /\ cst = <<>> /\ ca = <<>> /\ cres = <<>> /\ aux = <<>>
     /\ canc = {} /\ fired = <<>> /\ bad = {}
 
 PReset ==
-    /\ pres' = <<>> /\ pavail' = {} /\ curposs' = {0}
+    /\ pres' = <<>> /\ pavail' = {} /\ curposs' = {0} /\ late' = {}
     /\ ck' = <<>> /\ cst' = <<>> /\ ca' = <<>> /\ cres' = <<>> /\ aux' = <<>>
     /\ canc' = {} /\ fired' = <<>> /\ bad' = {}
 
@@ -67,12 +69,12 @@ ScenPres(pre) == [q \in 1..Len(pre) |-> IF pre[q].r THEN <<pre[q].v, pre[q].e>> 
 ScenAvail(pre) == {q \in 1..Len(pre) : pre[q].r}
 
 PInitScen(pre, c) ==
-    /\ pres = ScenPres(pre) /\ pavail = ScenAvail(pre) /\ curposs = {c}
+    /\ pres = ScenPres(pre) /\ pavail = ScenAvail(pre) /\ curposs = {c} /\ late = {}
     /\ ck = <<>> /\ cst = <<>> /\ ca = <<>> /\ cres = <<>> /\ aux = <<>>
     /\ canc = {} /\ fired = <<>> /\ bad = {}
 
 PScen(pre, c) ==
-    /\ pres' = ScenPres(pre) /\ pavail' = ScenAvail(pre) /\ curposs' = {c}
+    /\ pres' = ScenPres(pre) /\ pavail' = ScenAvail(pre) /\ curposs' = {c} /\ late' = {}
     /\ bad' = bad \cup (IF ck # <<>> THEN {"Harness"} ELSE {})
     /\ UNCHANGED <<ck, cst, ca, cres, aux, canc, fired>>
 
@@ -103,6 +105,8 @@ PCallSet(i, q, v, e, actor) ==
     /\ NewCall(i, "set", Args(q, v, e, "", actor))
     /\ aux' = (i :> {j \in SetsOn(q) : cst[j] = "done"}) @@ aux
     /\ bad' = bad \cup (IF i \in Ids \/ q \notin Proms \/ v < 1 THEN {"Harness"} ELSE {})
+    /\ late' = IF q \in Proms /\ q \notin curposs /\ pres[q] = <<>> /\ ~\E j \in SetsOn(q) : TRUE
+               THEN late \cup {q} ELSE late
     /\ UNCHANGED <<pres, pavail, curposs, canc>>
 
 \* ... and returns ok \in BOOLEAN.
@@ -122,12 +126,13 @@ PRetSet(i, ok) ==
         \* an awaiter already returned a different pair as "the result" of q
         \cup (IF ok /\ pres[q] # <<>> /\ pres[q] # pair THEN {"ResultMismatch"} ELSE {})
         \cup (IF ~ok /\ q \notin pavail /\ ~\E j \in others : cst[j] = "pending" THEN {"NoWinner"} ELSE {})
-    /\ UNCHANGED <<curposs, ck, ca, aux, canc, fired>>
+    /\ UNCHANGED <<curposs, ck, ca, aux, canc, fired, late>>
 
 \* A replacement call starts: SetPromise(q) (q = 0: nil) or container.SetResult (creates the
 \* resolved promise q).  From now on q may be current, for every call in flight.
 ReplStart(i, q) ==
     /\ curposs' = curposs \cup {q}
+    /\ late' = late \ {q}
     /\ aux' = [j \in Ids \cup {i} |->
                  IF j = i THEN {ca[k].q : k \in PendRepl}
                  ELSE IF j \in PendRepl \/ j \in PendAwaitC THEN aux[j] \cup {q}
@@ -154,14 +159,14 @@ PRetRepl(i) ==
     /\ cst' = [cst EXCEPT ![i] = "done"]
     /\ curposs' = curposs \cap ({ca[i].q} \cup aux[i])
     /\ bad' = bad \cup (IF i \notin Ids \/ ck[i] \notin {"setp", "cset"} \/ cst[i] # "pending" THEN {"Harness"} ELSE {})
-    /\ UNCHANGED <<pres, pavail, ck, ca, cres, aux, canc, fired>>
+    /\ UNCHANGED <<pres, pavail, ck, ca, cres, aux, canc, fired, late>>
 
 \* An await starts.  q: the plain promise awaited, 0: the container.  kind: await|errch|cancelch.
 PCallAwait(i, q, kind, actor) ==
     /\ NewCall(i, "await", Args(q, 0, "", kind, actor))
     /\ aux' = (i :> IF q = 0 THEN curposs ELSE {q}) @@ aux
     /\ bad' = bad \cup (IF i \in Ids \/ (q # 0 /\ q \notin Proms) THEN {"Harness"} ELSE {})
-    /\ UNCHANGED <<pres, pavail, curposs, canc>>
+    /\ UNCHANGED <<pres, pavail, curposs, canc, late>>
 
 \* Could (v,e) be the result of promise q?  Either it is the known pair, or no result has been
 \* observed yet and a SetResult(v,e) on q is in flight (the awaiter may see the result before
@@ -173,7 +178,9 @@ Match(q, v, e) ==
           /\ \E j \in SetsOn(q) : cst[j] = "pending" /\ ca[j].v = v /\ ca[j].e = e
 
 PRetAwait(i, v, e) ==
-    LET M == {q \in aux[i] : Match(q, v, e)} IN
+    \* "follows replacements": a container awaiter does not return the result of a promise that got it
+    \* only after it had been replaced
+    LET M == {q \in (IF ca[i].q = 0 THEN aux[i] \ late ELSE aux[i]) : Match(q, v, e)} IN
     /\ cst' = [cst EXCEPT ![i] = "done"]
     /\ pres' = [q \in Proms |-> IF q \in M /\ pres[q] = <<>> THEN <<v, e>> ELSE pres[q]]
     /\ bad' = bad
@@ -182,18 +189,18 @@ PRetAwait(i, v, e) ==
               ELSE IF v # 0 THEN {"WrongResult:" \o Desc(i)}
               ELSE IF i \in canc \/ fired[i] # "" THEN {}
               ELSE {"NoCause:" \o Desc(i)})
-    /\ UNCHANGED <<pavail, curposs, ck, ca, cres, aux, canc, fired>>
+    /\ UNCHANGED <<pavail, curposs, ck, ca, cres, aux, canc, fired, late>>
 
 PCancel(i) ==
     /\ canc' = canc \cup {i}
     /\ bad' = bad \cup (IF i \notin Ids \/ ck[i] # "await" THEN {"Harness"} ELSE {})
-    /\ UNCHANGED <<pres, pavail, curposs, ck, cst, ca, cres, aux, fired>>
+    /\ UNCHANGED <<pres, pavail, curposs, ck, cst, ca, cres, aux, fired, late>>
 
 \* The error / cancel channel of await i fired (how: val | nil | close | send).
 PFire(i, how) ==
     /\ fired' = [fired EXCEPT ![i] = how]
     /\ bad' = bad \cup (IF i \notin Ids \/ ck[i] # "await" \/ ca[i].kind = "await" THEN {"Harness"} ELSE {})
-    /\ UNCHANGED <<pres, pavail, curposs, ck, cst, ca, cres, aux, canc>>
+    /\ UNCHANGED <<pres, pavail, curposs, ck, cst, ca, cres, aux, canc, late>>
 
 \* Is the result that await i must return certainly available?
 ResultReady(i) ==
@@ -213,21 +220,21 @@ QuietOK(B) == QuietBad(B) = {}
 
 PQuiet(B) ==
     /\ bad' = bad \cup QuietBad(B)
-    /\ UNCHANGED <<pres, pavail, curposs, ck, cst, ca, cres, aux, canc, fired>>
+    /\ UNCHANGED <<pres, pavail, curposs, ck, cst, ca, cres, aux, canc, fired, late>>
 
 \* The controller saw this actor pass SpinK critical sections in a row while nothing else
 \* moved and nothing was logged.
 PSpin(actor) ==
     LET S == {i \in PendingK("await") : ca[i].actor = actor} IN
     /\ bad' = bad \cup (IF S = {} THEN {"Harness"} ELSE {"AwaitSpin:" \o Desc(i) : i \in S})
-    /\ UNCHANGED <<pres, pavail, curposs, ck, cst, ca, cres, aux, canc, fired>>
+    /\ UNCHANGED <<pres, pavail, curposs, ck, cst, ca, cres, aux, canc, fired, late>>
 
 \* Call i panicked instead of returning (it never "returns that call's value and error" / never
 \* returns true or false).
 PPanic(i) ==
     /\ cst' = [cst EXCEPT ![i] = "done"]
     /\ bad' = bad \cup (IF i \notin Ids \/ cst[i] # "pending" THEN {"Harness"} ELSE {"Panic:" \o ck[i]})
-    /\ UNCHANGED <<pres, pavail, curposs, ck, ca, cres, aux, canc, fired>>
+    /\ UNCHANGED <<pres, pavail, curposs, ck, ca, cres, aux, canc, fired, late>>
 
 -----------------------------------------------------------------------------
 (* The property *)
